@@ -11,6 +11,12 @@ CLAIMED = {
  "C01": ("model_checking", "s6 C01", "TLC checks on a grid that the defining equations have a unique solution and the knot bookkeeping laws; every order x dim 1..10 x N 1..10 x overload is executed on the real classes and each recording is validated by TLC against the exact interpolation/boundary equations and bookkeeping (scaled residual <= 1e-6 in the well-scaled domain)."),
  "C02": ("model_checking", "s6 C02", "TLC proves first-order optimality of the defining-equation solution on a grid (so residuals = minimiser); recordings of the real classes are validated for continuity of derivatives 1..2s-2 and coefficient-wise against an exact dense solve."),
  "C04": ("model_checking", "s6 C04", "Energy laws model-checked on the grid; recorded getEnergy() validated against the exact integral of the squared s-th derivative of the published coefficients for arbitrary positive durations."),
+ "C05": ("model_checking", "s6 C05", "TLC checks on the grid that the adjoint (implicit differentiation of the defining equations) equals exact central differences of <gC,C>+<gT,T> in every input; recorded propagateGrad results for unit, dense, sparse and zero upstream gradients are validated entry-wise against the exact transpose-Jacobian product, and repeated calls must return identical bits."),
+ "C06": ("model_checking", "s6 C06", "TLC checks on the grid that the exact energy gradient equals exact differences of the energy; recorded partial gradients are validated against exact partials of the energy integral of the published coefficients, recorded total gradients (three access routes) and propagated partials against the exact total derivative."),
+ "C10": ("model_checking", "s6 C10", "TLC explores the object life cycle with the factor caches modelled entry by entry (no stale read reachable; three broken twins rejected) and generates one script per abstract transition; the scripts are replayed on all three orders and every observation must carry the same bits as any other observation with the same inputs."),
+ "C13": ("model_checking", "s6 C13", "Coordinate-wise independence is a TLC theorem on the grid; for every order and dimension 1..10 the D-dimensional recording is validated against the per-coordinate exact oracle and compared coordinate-wise with D one-dimensional recordings and a permuted one."),
+ "C14": ("model_checking", "s6 C14", "The five transformation laws (coefficients, energy, energy gradients) are TLC theorems on the grid; recordings of a problem and its five transforms are compared with each other (bit-identical for shifts) and each with its own exact minimiser/energy/gradient."),
+ "C18": ("exploration", "s6 C18", "Rounding cannot be modelled in TLA+; it is judged exactly: every defining-equation residual of a canonical corpus and of seeded random duration vectors with ratio <= 100 is evaluated in exact arithmetic by TLC on the recorded coefficient bits (tolerance 1e-3). Known finding F1 (septic, ratio >= ~70) is listed in known_findings.json."),
 }
 PENDING = {}
 checks = []
